@@ -30,7 +30,8 @@ RULE = ("same generator as C01 (x class x y class x layout x mode x on/off-grid 
         " Round-5 classes: as C01 (name identity, both fixed-point parameters, int32 columns)."
         " Round-6 classes: as C01 (compact index arrays, narrow-float exponent)."
         " Round-8 classes: the reference on the very grid of the input together with explicitly designated fixed points."
-        " Round-9 classes: as C01 (one interval holding nearly all samples of a huge series).")
+        " Round-9 classes: as C01 (one interval holding nearly all samples of a huge series)."
+        " Round-10 classes: as C01 (datetime64[s] axes).")
 REQUIRED_MONITORS = ["c03:post", "c03:profile_intervals", "c03:idempotence", "c03:superposition"]
 ASSUMPTIONS = ["admissible inputs as in C01", "affinity of the kernel is sampled by superposition, not proved"]
 NSHARDS = 16
